@@ -8,8 +8,28 @@ Open Scope Z_scope.
 
 Definition bytes_of_string (s : string) : list N := map N_of_ascii (list_ascii_of_string s).
 
-(** harness encoding of Python values: None -> SxNone, int -> SxZ, str -> SxS (printable) or SxH (UTF-8),
-    bool -> L [1; b], list -> L (4 :: items), dict -> L (5 :: [k; v] pairs) *)
+(** Text is interned: string literals are by far the most expensive thing for coqc to read, so the harness
+    sends every distinct text once per batch ([tab]) and refers to it as L [10 + index]. *)
+Definition hx (h : string) : string :=
+  match hex_to_bytes h with Some b => string_of_bytes b | None => "BAD-HEX" end.
+
+Fixpoint index_of (s : string) (tab : list string) (i : Z) : option Z :=
+  match tab with
+  | [] => None
+  | t :: r => if String.eqb s t then Some i else index_of s r (i + 1)
+  end.
+
+Section Tab.
+Variable tab : list string.
+
+Definition sx_text (s : string) : sx :=
+  match index_of s tab 0 with
+  | Some i => SxL [SxZ (10 + i)]
+  | None => sx_bytes (bytes_of_string s)
+  end.
+
+(** harness encoding of Python values: None -> SxNone, int -> SxZ, str -> L [10 + index] (or SxS / SxH),
+    bool -> L [1; b], list -> L (4 :: items), dict -> L (5 :: k1 :: v1 :: k2 :: v2 ...) *)
 Fixpoint pv_of_sx (x : sx) {struct x} : option pv :=
   match x with
   | SxNone => Some PNone
@@ -21,6 +41,8 @@ Fixpoint pv_of_sx (x : sx) {struct x} : option pv :=
       | SxZ tag :: items =>
           if Z.eqb tag 1 then
             match items with [SxZ b] => Some (PBool (negb (Z.eqb b 0))) | _ => None end
+          else if Z.leb 10 tag then
+            match items with [] => Some (PStr (nth (Z.to_nat (tag - 10)) tab "BAD-INDEX")) | _ => None end
           else if Z.eqb tag 4 then
             option_map PList
               ((fix go (l : list sx) : option (list pv) :=
@@ -33,55 +55,48 @@ Fixpoint pv_of_sx (x : sx) {struct x} : option pv :=
               ((fix go (l : list sx) : option (list (pv * pv)) :=
                   match l with
                   | [] => Some []
-                  | y :: r =>
-                      match y with
-                      | SxL [k; v] =>
-                          match pv_of_sx k, pv_of_sx v, go r with
-                          | Some a, Some b, Some c => Some ((a, b) :: c)
-                          | _, _, _ => None
-                          end
-                      | _ => None
+                  | k :: v :: r =>
+                      match pv_of_sx k, pv_of_sx v, go r with
+                      | Some a, Some b, Some c => Some ((a, b) :: c)
+                      | _, _, _ => None
                       end
+                  | _ => None
                   end) items)
           else None
       | _ => None
       end
   end.
 
-(** canonical output encoding of a Python value (text always in hexadecimal) *)
+(** canonical output encoding of a Python value *)
 Fixpoint sx_of_pv (v : pv) : sx :=
   match v with
   | PNone => SxNone
   | PBool b => SxL [SxZ 1; SxZ (if b then 1 else 0)]
   | PInt z => SxZ z
-  | PStr s => sx_bytes (bytes_of_string s)
+  | PStr s => sx_text s
   | PList l => SxL (SxZ 4 :: map sx_of_pv l)
-  | PDict kvs => SxL (SxZ 5 :: map (fun kv => SxL [sx_of_pv (fst kv); sx_of_pv (snd kv)]) kvs)
+  | PDict kvs => SxL (SxZ 5 :: flat_map (fun kv => [sx_of_pv (fst kv); sx_of_pv (snd kv)]) kvs)
   end.
 
-Definition exc_name (e : exc) : string :=
+(** exception classes are exchanged as numbers: 0 ConfigurationError, 1 KeyError, 2 AttributeError, 3 TypeError,
+    4 ValueError, 5 socket.gaierror, 6 message.InvalidSyntax, 7 anything else *)
+Definition exc_code (e : exc) : Z :=
   match e with
-  | ConfigurationError => "ConfigurationError" | KeyError => "KeyError" | AttributeError => "AttributeError"
-  | TypeError => "TypeError" | ValueError => "ValueError" | GaiError => "gaierror"
-  | InvalidSyntax => "InvalidSyntax" | OtherError => "OtherError"
+  | ConfigurationError => 0 | KeyError => 1 | AttributeError => 2 | TypeError => 3 | ValueError => 4
+  | GaiError => 5 | InvalidSyntax => 6 | OtherError => 7
   end.
 
-Definition exc_of_name (s : string) : exc :=
-  if String.eqb s "ConfigurationError" then ConfigurationError
-  else if String.eqb s "KeyError" then KeyError
-  else if String.eqb s "AttributeError" then AttributeError
-  else if String.eqb s "TypeError" then TypeError
-  else if String.eqb s "ValueError" then ValueError
-  else if String.eqb s "gaierror" then GaiError
-  else if String.eqb s "InvalidSyntax" then InvalidSyntax
-  else OtherError.
+Definition exc_of_code (z : Z) : exc :=
+  if Z.eqb z 0 then ConfigurationError else if Z.eqb z 1 then KeyError else if Z.eqb z 2 then AttributeError
+  else if Z.eqb z 3 then TypeError else if Z.eqb z 4 then ValueError else if Z.eqb z 5 then GaiError
+  else if Z.eqb z 6 then InvalidSyntax else OtherError.
 
 Definition sx_addr (a : address) : sx := SxL [SxZ (fst a); SxZ (snd a)].
 Definition sx_transform (t : transform) : sx := SxL [SxZ (t_type t); SxZ (t_id t); sx_opt SxZ (t_keylen t)].
 Definition sx_proposal (p : proposal) : sx := SxL [SxZ (p_num p); SxZ (p_protocol p); sx_list sx_transform (p_transforms p)].
-Definition sx_ident (i : ident) : sx := SxL [SxZ (id_type i); sx_bytes (bytes_of_string (id_data i))].
+Definition sx_ident (i : ident) : sx := SxL [SxZ (id_type i); sx_text (id_data i)].
 Definition sx_auth (a : authconf) : sx :=
-  SxL [sx_opt (fun s => sx_bytes (bytes_of_string s)) (a_psk a); sx_ident (a_id a); sx_opt SxZ (a_privkey a);
+  SxL [sx_opt sx_text (a_psk a); sx_ident (a_id a); sx_opt SxZ (a_privkey a);
        sx_opt SxZ (a_pubkey a)].
 Definition sx_tsel (t : tsel) : sx :=
   SxL [SxZ (ts_type t); SxZ (ts_proto t); SxZ (ts_start_port t); SxZ (ts_end_port t); sx_addr (ts_start_addr t);
@@ -97,9 +112,9 @@ Definition sx_config (c : config) : sx :=
   sx_list (fun kv => SxL [SxL [sx_addr (fst (fst kv)); sx_addr (snd (fst kv))]; sx_ikeconf (snd kv)]) c.
 
 Definition sx_res {A} (f : A -> sx) (r : res A) : sx :=
-  match r with Ok a => SxL [SxS "ok"; f a] | Raise e => SxL [SxS "raise"; SxS (exc_name e)] end.
+  match r with Ok a => SxL [SxZ 0; f a] | Raise e => SxL [SxZ 1; SxZ (exc_code e)] end.
 
-(** environment entries: L [kind; key; outcome]; outcome = L (0 :: values) | L [1; S class-name] *)
+(** environment entries: L [kind; key; outcome]; outcome = L (0 :: values) | L [1; class code] *)
 Definition entry := (Z * pv * sx)%type.
 
 Fixpoint entries_of_sx (l : list sx) : option (list entry) :=
@@ -122,14 +137,13 @@ Fixpoint find_entry (kind : Z) (key : pv) (l : list entry) : option sx :=
 Definition outcome {A} (dec : list sx -> option A) (o : option sx) : res A :=
   match o with
   | Some (SxL (SxZ 0 :: vals)) => match dec vals with Some a => Ok a | None => Raise OtherError end
-  | Some (SxL [SxZ 1; SxS cls]) => Raise (exc_of_name cls)
+  | Some (SxL [SxZ 1; SxZ cls]) => Raise (exc_of_code cls)
   | _ => Raise OtherError          (* the harness did not resolve this value: shows up as a mismatch *)
   end.
 
 Definition dec_str (l : list sx) : option string :=
   match l with
-  | [SxS s] => Some s
-  | [SxH h] => option_map string_of_bytes (hex_to_bytes h)
+  | [x] => match pv_of_sx x with Some (PStr s) => Some s | _ => None end
   | _ => None
   end.
 Definition dec_addr (l : list sx) : option address := match l with [SxZ v; SxZ a] => Some (v, a) | _ => None end.
@@ -191,3 +205,5 @@ Definition run_int (x : sx) : sx :=
   | Some v => sx_res SxZ (py_int (fun _ => None) v)
   | None => bad_input
   end.
+
+End Tab.
